@@ -45,8 +45,10 @@ def run(repo, chk):
 
 
 def rule_prepare(repo, chk):
+    from .common import normalised
     f = repo.func(WEB_WRAPPERS, 'Response.prepare')
     chk.touch(f)
+    f = normalised(f)       # `headers = self.headers` etc. are spelling, not state
     g = f.cfg()
     setch = [n for n in g.nodes if n.kind == 'stmt' and 'self' in pat.stores_attr(n.ast, 'chunked', True)]
     setcl = [n for n in g.nodes if n.kind == 'stmt' and 'self' in pat.stores_attr(n.ast, 'close', True)]
@@ -56,7 +58,19 @@ def rule_prepare(repo, chk):
     nolen = [e for n in g.nodes if n.kind == 'test' for e in n.succ
              if pat.fact_matches(pat.compare_fact(n.ast, e.kind), "'Content-Length'", ('not in',), 'self.headers')]
     need(nolen, 'C15.a: prepare() does not test for a missing Content-Length')
-    bodiless = pat.test_edge(lambda tt, pol: pol == 'T' and ('status < 200' in src(tt) or 'status in (204' in src(tt)))
+    def _bodiless(tt, pol):
+        fc = pat.compare_fact(tt, pol)
+        return fc is not None and fc[0].endswith('status') and ((fc[1] == '<' and fc[2] == '200') or (fc[1] == 'in' and fc[2].replace(' ', '').startswith('(204')))
+    bodiless = pat.test_edge(_bodiless)
+    # the local that holds the computed length: the one the Content-Length header is set from
+    lv = 'cLength'
+    for n in g.nodes:
+        if n.kind == 'stmt' and isinstance(n.ast, ast.Assign) and src(n.ast.targets[0]) == "self.headers['Content-Length']":
+            v = n.ast.value
+            if isinstance(v, ast.Call) and call_name(v) == 'str' and v.args and isinstance(v.args[0], ast.Name):
+                lv = v.args[0].id
+            elif isinstance(v, ast.Name):
+                lv = v.id
     for e in nolen:
         fr = [n for n in setch if n in te or True]
         p = Q.escapes(g, [e.dst], lambda n: n in setch or n in setcl, avoid_edge=bodiless)
@@ -75,7 +89,7 @@ def rule_prepare(repo, chk):
         for label, pred in (('HTTP/1.1 only', lambda tt, pol: pat.fact_matches(pat.compare_fact(tt, pol), 'self.protocol', ('==',), "'HTTP/1.1'")),
                             ('not for HEAD', lambda tt, pol: pat.fact_matches(pat.compare_fact(tt, pol), 'self.request.method', ('!=',), "'HEAD'")),
                             ('only when no Content-Length is set', lambda tt, pol: pat.fact_matches(pat.compare_fact(tt, pol), "'Content-Length'", ('not in',), 'self.headers')),
-                            ('not for an empty body', lambda tt, pol: pat.fact_matches(pat.compare_fact(tt, pol), 'cLength', ('!=',), '0'))):
+                            ('not for an empty body', lambda tt, pol: pat.fact_matches(pat.compare_fact(tt, pol), lv, ('!=',), '0'))):
             q = pat.guarded_by(g, n, pat.test_edge(pred))
             chk.ob('a', f.ref, f'chunked encoding is chosen {label}', q is None, loc(f, n.ast), path=pat.path_lines(q) if q else None,
                    discr=f'chunked-guard:{label}')
@@ -86,13 +100,13 @@ def rule_prepare(repo, chk):
                discr='header-implies-flag')
     # known length ⇒ header
     clh = [n for n in g.nodes if n.kind == 'stmt' and isinstance(n.ast, ast.Assign) and src(n.ast.targets[0]) == "self.headers['Content-Length']"]
-    known = [e for n in g.nodes if n.kind == 'test' for e in n.succ if pat.fact_matches(pat.compare_fact(n.ast, e.kind), 'cLength', ('is not', '!='), 'None')]
+    known = [e for n in g.nodes if n.kind == 'test' for e in n.succ if pat.fact_matches(pat.compare_fact(n.ast, e.kind), lv, ('is not', '!='), 'None')]
     ok = bool(clh) and bool(known) and all(e.dst in clh or Q.escapes(g, [e.dst], lambda n: n in clh) is None for e in known)
     chk.ob('a', f.ref, 'a body of known length gets a Content-Length header', ok, loc(f, f.node), discr='content-length')
     for n in clh:
-        chk.ob('a', f.ref, 'Content-Length is the computed length', src(n.ast.value) in ('str(cLength)', 'cLength'), loc(f, n.ast), discr='content-length-value')
+        chk.ob('a', f.ref, 'Content-Length is the computed length', src(n.ast.value) in (f'str({lv})', lv), loc(f, n.ast), discr='content-length-value')
     # length computed in bytes of the encoded body
-    lens = [n for n in g.nodes if n.kind == 'stmt' and isinstance(n.ast, ast.Assign) and src(n.ast.targets[0]) == 'cLength' and not pat.is_const(n.ast.value, None)]
+    lens = [n for n in g.nodes if n.kind == 'stmt' and isinstance(n.ast, ast.Assign) and src(n.ast.targets[0]) == lv and not pat.is_const(n.ast.value, None)]
     ok = bool(lens) and all('len(' in src(n.ast.value) for n in lens) and any('.encode(self.encoding)' in src(n.ast.value) for n in lens)
     chk.ob('a', f.ref, 'the length is measured on the encoded bytes', ok, loc(f, f.node), discr='length-of-bytes')
     # Connection header
@@ -133,7 +147,8 @@ def _guard_text(n):
 
 def _finish_sets(g, sock):
     closes = [n for n in g.nodes if n.kind == 'stmt' and any(pat.event_ctor_name(e) == 'close' for _c, _r, e in pat.fire_calls(n.ast))]
-    drops = [n for n in g.nodes if n.kind == 'stmt' and isinstance(n.ast, ast.Delete) and any(src(t) == f'self._clients[{sock}]' for t in n.ast.targets)]
+    drops = [n for n in g.nodes if n.kind == 'stmt' and ((isinstance(n.ast, ast.Delete) and any(src(t) == f'self._clients[{sock}]' for t in n.ast.targets)) or
+                                                           any(r == 'self._clients' and c.args and src(c.args[0]) == sock for r, c in pat.method_calls(n.ast, 'pop')))]
     dones = [n for n in g.nodes if n.kind == 'stmt' and 'res' in pat.stores_attr(n.ast, 'done', True)]
     return closes, drops, dones
 
@@ -253,6 +268,18 @@ def _producer_rule(chk, f, g, streams):
                discr='stream-producer-non-empty')
 
 
+def _is_chunk_frame(func, v, dv):
+    """`b''.join(X)` where X is (a local holding) a 4-element sequence <hex length of the chunk> CRLF <chunk> CRLF"""
+    if not (isinstance(v, ast.Call) and src(v.func) == "b''.join" and len(v.args) == 1):
+        return False
+    for seq in pat.deref(func, v.args[0]):
+        if isinstance(seq, (ast.List, ast.Tuple)) and len(seq.elts) == 4:
+            size = ' '.join(src(x) for x in pat.deref(func, seq.elts[0]))
+            if 'hex(len(' + dv in size and src(seq.elts[1]) == "b'\\r\\n'" and src(seq.elts[2]) == dv and src(seq.elts[3]) == "b'\\r\\n'":
+                return True
+    return False
+
+
 def rule_stream(repo, chk):
     f = repo.func(WEB_HTTP, 'HTTP._on_stream')
     chk.touch(f)
@@ -266,15 +293,15 @@ def rule_stream(repo, chk):
     chunk_T = pat.test_edge(lambda tt, pol: pol == 'T' and src(tt) == 'res.chunked')
     chunk_F = pat.test_edge(lambda tt, pol: pol == 'F' and src(tt) == 'res.chunked')
     for n in bodyw:
-        framers = [m for m in g.nodes if m.kind == 'stmt' and isinstance(m.ast, ast.Assign) and src(m.ast.targets[0]) == dv and "b''.join(buf)" in src(m.ast.value)]
+        framers = [m for m in g.nodes if m.kind == 'stmt' and isinstance(m.ast, ast.Assign) and src(m.ast.targets[0]) == dv and _is_chunk_frame(f, m.ast.value, dv)]
         q = Q.reachable_without(g, n, avoid_node=lambda m: m in framers, avoid_edge=chunk_F)
         chk.ob('c', f.ref, 'under chunked encoding each streamed chunk is framed before it is written', q is None and bool(framers), loc(f, n.ast),
                path=pat.path_lines(q) if q else None, discr='chunk-framed')
         q = pat.guarded_by(g, n, pat.test_edge(lambda tt, pol: pat.fact_matches(pat.compare_fact(tt, pol), dv, ('is not', '!='), 'None')))
         chk.ob('c', f.ref, 'a chunk is written only for data that is not the end-of-body marker', q is None, loc(f, n.ast), discr='chunk-not-none')
         for fr in framers:
-            chk.ob('c', f.ref, 'the chunk header is the hexadecimal length of the chunk, followed by CRLF, data, CRLF', _frame_size_ok(g, fr, dv), loc(f, fr.ast),
-                   discr='frame-shape')
+            chk.ob('c', f.ref, 'the chunk header is the hexadecimal length of the chunk, followed by CRLF, data, CRLF', _frame_size_ok(g, fr, dv) or _is_chunk_frame(f, fr.ast.value, dv),
+                   loc(f, fr.ast), discr='frame-shape')
             qq = pat.guarded_by(g, fr, chunk_T)
             chk.ob('c', f.ref, 'framing is applied only under chunked encoding', qq is None, loc(f, fr.ast), discr='framing-only-chunked')
             # non-empty: guard at the framing site, or every producer guards (checked by the producer rule on both handlers)
@@ -324,6 +351,12 @@ def rule_filegen(repo, chk):
     cv = src(reads[0].ast.targets[0])
     loops = [n for n in g.nodes if n.kind == 'join' and isinstance(n.ast, ast.While)]
     ok_loop = bool(loops) and all(src(lp.ast.test) in (cv, f'len({cv})', f'len({cv}) > 0', f'{cv} != b\'\'') for lp in loops)
+    if not ok_loop and loops and all(isinstance(lp.ast.test, ast.Constant) and lp.ast.test.value is True for lp in loops):
+        # `while True: chunk = read(); if not chunk: break; yield chunk`: the loop is left exactly on an empty chunk
+        brk = [n for n in g.nodes if n.kind == 'stmt' and isinstance(n.ast, (ast.Break, ast.Return))]
+        empty = pat.test_edge(lambda tt, pol: (pol == 'F' and src(tt) in (cv, f'len({cv})')) or pat.fact_matches(pat.compare_fact(tt, pol), f'len({cv})', ('==',), '0')
+                              or pat.fact_matches(pat.compare_fact(tt, pol), cv, ('==',), "b''"))
+        ok_loop = bool(brk) and all(pat.guarded_by(g, b_, empty, start=reads[0]) is None for b_ in brk)
     chk.ob('e', f.ref, 'the read loop runs while the last chunk is non-empty (not while it is full)', ok_loop, loc(f, (loops[0].ast if loops else f.node)),
            detail='; '.join('while ' + src(lp.ast.test) for lp in loops), discr='until-empty')
     ys = [n for n in g.nodes if n.kind == 'stmt' and n.has_yield() and cv in Q.names_used(n.ast)]
